@@ -40,7 +40,7 @@ def width(t):
         return t[2]
     if k in ('cmp', 'fcc', 'feq', 'fne', 'flt', 'fle', 'fgt', 'fge', 'bool'):
         return 8
-    if k in ('mem', 'signof', 'baddiv', 'junk'):
+    if k in ('mem', 'signof', 'baddiv', 'junk', 'fp2int'):
         return t[1]
     if k in ('init', 'clobber'):
         return 64
@@ -271,6 +271,8 @@ class Machine:
         for o in ops:
             if o[0] == 'reg' and o[1] in SUB:
                 return SUB[o[1]][1]
+            if o[0] == 'reg' and o[1] in HIGH8:
+                return 8
         if suf in SUFFIX_W:
             return SUFFIX_W[suf]
         raise Unknown('operand width of ' + mn)
@@ -560,7 +562,19 @@ class Machine:
             cnt = C(ops[0][1]) if isinstance(ops[0][1], int) else ('immsym', ops[0][1])
         else:
             cnt = s.rd('cl')
-        r = ('bin', op, w, a, cnt)
+        if a[0] == 'c' and cnt[0] == 'c' and 0 <= cnt[1] < w:
+            m = (1 << w) - 1
+            if op == 'shl':
+                r = C((a[1] << cnt[1]) & m)
+            elif op == 'shr':
+                r = C((a[1] & m) >> cnt[1])
+            else:
+                v = a[1] & m
+                if v >> (w - 1):
+                    v -= 1 << w
+                r = C((v >> cnt[1]) & m)
+        else:
+            r = ('bin', op, w, a, cnt)
         self.put(s, ops[1], w, r)
         s.flags = ('res', w, r)
 
